@@ -30,6 +30,9 @@ var zzTrainings = []zzTraining{
 	4: {text: "2020-01-05 \"shop\"\nAssets:Bank Expenses:Food 10 CHF\n\n2020-01-06 \"shop\"\nAssets:Bank Expenses:Café 10 CHF\n",
 		accounts: []string{"Assets:Bank", "Expenses:Food", "Expenses:Café"}, ties: true},
 	5: {text: "2020-01-05 \"atm\"\nAssets:Bank Assets:Cash 10 CHF\n", accounts: []string{"Assets:Bank", "Assets:Cash"}},
+	// two candidates whose names differ only in case, with exactly equal scores (seed C15-r4m2)
+	7: {text: "2020-01-05 \"shop\"\nAssets:Bank Expenses:Cafe 10 CHF\n\n2020-01-06 \"shop\"\nAssets:Bank Expenses:CAFE 10 CHF\n",
+		accounts: []string{"Assets:Bank", "Expenses:Cafe", "Expenses:CAFE"}, ties: true},
 	6: {text: "2020-01-05 \"x\"\nAssets:Bank Expenses:TBD 5 CHF\n\n2020-01-06 \"café\"\nAssets:Bank Expenses:Café 4.50 CHF\n", accounts: []string{"Assets:Bank", "Expenses:Café"}},
 }
 
